@@ -153,6 +153,119 @@ def regen(ck):
     return p.returncode, p.stdout
 
 
+ENV_HEADER = """// Code generated by checks/c20.py from %(repo)s/main.go -- verbatim copies, DO NOT EDIT.
+package main
+
+import (
+	"fmt"
+	"os"
+	"strconv"
+	"strings"
+
+	clconfig "github.com/metrico/cloki-config"
+	"github.com/metrico/cloki-config/config"
+)
+
+var _ = fmt.Sprint
+var _ = os.Getenv
+var _ = strconv.Atoi
+var _ = strings.SplitN
+var _ *clconfig.ClokiConfig
+var _ config.ClokiBaseDataBase
+
+const envGenerated = true
+
+"""
+
+
+def extract_func(src, name):
+    """the text of top-level `func name(` up to its closing brace at column 0 (gofmt layout)"""
+    m = re.search(r"^func %s\(" % re.escape(name), src, re.M)
+    if not m:
+        return None
+    end = src.find("\n}\n", m.start())
+    return None if end < 0 else src[m.start():end + 3]
+
+
+def run_env(ck):
+    """portEnv (package main) compiled verbatim into harness/cmd/authenv; model/AuthEnv.v port_env on the same environments"""
+    src = open(os.path.join(vcheck.REPO, "main.go")).read()
+    parts, missing = [], []
+    for n in ("boolEnv", "portCHEnv", "portEnv"):
+        t = extract_func(src, n)
+        if t is None:
+            missing.append(n)
+        else:
+            parts.append("// ---- main.go: func %s\n%s" % (n, t))
+    if not ck.obligation("portEnv, portCHEnv and boolEnv found in main.go", not missing, "missing: %s" % missing):
+        return
+    gdir = os.path.join(vcheck.BUILD, "gen", vcheck.repo_tag())
+    os.makedirs(gdir, exist_ok=True)
+    gen = os.path.join(gdir, "authenv_portenv_gen.go")
+    txt = ENV_HEADER % {"repo": vcheck.REPO} + "\n".join(parts)
+    if not os.path.exists(gen) or open(gen).read() != txt:
+        open(gen, "w").write(txt)
+    ov = os.path.join(gdir, "authenv_overlay.json")
+    open(ov, "w").write(json.dumps({"Replace": {os.path.join(vcheck.HARNESS, "cmd", "authenv", "portenv_gen.go"): gen}}))
+    with vcheck.Lock("gomod"):
+        vcheck.ensure_harness_module()
+    rc, out = vcheck.sh(["go", "build", "-modfile=" + vcheck.modfile(), "-overlay=" + ov, "-tags", "verif", "-o",
+                         vcheck.bin_path("authenv"), "./cmd/authenv"], cwd=vcheck.HARNESS, env=vcheck.go_env(), timeout=1200)
+    ck.log("go build authenv (+ portEnv copied from main.go) rc=%d" % rc)
+    if not ck.obligation("harness authenv builds with the copied portEnv", rc == 0, out[-1500:]):
+        return
+    outp = os.path.join(ck.work, "authenv.jsonl")
+    rc, out = ck.go_run("authenv", ["--seed", ck.seed, "--n", ck.n(400, 6000), "--out", outp])
+    if not ck.obligation("harness authenv ran", rc == 0, out[-1500:]):
+        return
+    cases = [json.loads(l) for l in open(outp)]
+    bad = [c for c in cases if c.get("panic")]
+    if not ck.obligation("portEnv never panics on generated environments", not bad, str(bad[:1])[:500]):
+        ck.violation({"property": "C20", "kind": "portEnv panicked", "case": bad[0]})
+        return
+
+    def cfgc(a):
+        return "{| a_user := %s; a_pass := %s; a_cors := %s; a_origin := %s; a_mode := %s |}" % (
+            coq_string(a["user"]), coq_string(a["pass"]), coq_bool(a["cors"]), coq_string(a["origin"]), coq_string(a["mode"]))
+    preset = "[{| o_cluster := \"\"; o_ttl_policy := []; o_ttl_days := 7; o_storage_policy := \"\" |}]"
+    rows = []
+    for c in cases:
+        env = "[" + "; ".join("(%s, %s)" % (coq_string(kv["k"]), coq_string(kv["v"])) for kv in c["env"]) + "]"
+        rows.append("{| ec_id := %d; ec_env := %s; ec_file := %s; ec_preset := %s; ec_err := %s; ec_out := %s |}" % (
+            c["id"], env, cfgc(c["file"]), preset if c["preset"] else "[]", coq_bool(c["err"]), cfgc(c["out"])))
+    txt = ("From Coq Require Import List ZArith Bool String Ascii.\nFrom Qryn Require Import model.Router model.RotateCfg model.AuthEnv.\n"
+           "Import ListNotations.\nOpen Scope string_scope.\nOpen Scope Z_scope.\n"
+           "Definition cases : list ecase := [\n  " + ";\n  ".join(rows) + "].\n"
+           "Definition EM := Eval vm_compute in env_mismatches cases.\nPrint EM.\n"
+           "Definition EV := Eval vm_compute in env_violations cases.\nPrint EV.\n")
+    rc, out = ck.coq_eval("C20_env", txt)
+    flat = " ".join(out.split())
+    m = re.search(r"EM = \[(.*?)\]\s*: list Z", flat)
+    v = re.search(r"EV = \[(.*?)\]\s*: list Z", flat)
+    if not ck.obligation("environments evaluated inside Coq", rc == 0 and m and v, out[-1500:]):
+        return
+    mism = [int(x) for x in re.findall(r"\d+", m.group(1))]
+    viol = [int(x) for x in re.findall(r"\d+", v.group(1))]
+    byid = {c["id"]: c for c in cases}
+    ck.obligation("correspondence: model AuthEnv.port_env = portEnv of main.go on %d environments (error, Username, Password, Cors, Mode)" % len(cases),
+                  not mism, "mismatching ids: %s" % mism[:10])
+    ck.obligation("a login and a password given by the environment (or the file) are the Username and Password main sees (CLOKI_ over QRYN_ over file)",
+                  not viol, "violating ids: %s" % viol[:10])
+    if viol:
+        w = min((byid[i] for i in viol), key=lambda c: len(c["env"]))
+        ck.violation({"property": "C20", "kind": "portEnv does not hand the configured credentials to main: BasicAuth is not installed with them",
+                      "case": w, "replay": "harness authenv --cases <file with the line `case`>"})
+    elif mism:
+        w = min((byid[i] for i in mism), key=lambda c: len(c["env"]))
+        ck.violation({"property": "C20", "kind": "model/AuthEnv.v and portEnv disagree; the oracle accepts", "case": w}, no_input=True)
+    both = sum(1 for c in cases if not c["err"] and c["out"]["user"] and c["out"]["pass"])
+    ck.coverage["evaluations"] += len(cases)
+    ck.coverage["distinct_nontrivial"] += len(set(json.dumps(c["env"]) for c in cases if not c["err"] and (c["out"]["user"] or c["out"]["pass"])))
+    ck.extra["environments"] = {"cases": len(cases), "refused": sum(1 for c in cases if c["err"]), "login_and_password": both,
+                                "only_one_of_them": sum(1 for c in cases if not c["err"] and bool(c["out"]["user"]) != bool(c["out"]["pass"])),
+                                "modes_seen": sorted(set(c["out"]["mode"] for c in cases if not c["err"]))}
+
+
 def run(ck):
     # coq/gen/GenRoutes.v is shared by every run of this check (also runs against a scratch VERIF_REPO): serialise them
     with vcheck.Lock("c20run"):
@@ -175,8 +288,9 @@ def run_locked(ck):
         "C20: gorilla/mux v1.8.1 dispatch as transcribed in model/Router.v (first full match; 405/404 without middleware; middlewares of the "
         "router chain applied at match time) -- measured on every run by the harness's mux probe and the route-by-route comparison; net/http",
         "C20: condition atoms are treated as independent booleans (over-approximation: mode == all and mode == writer may both hold); "
-        "configuration loading (portEnv, config file) is outside the model: 'credentials configured' means Username and Password non-empty "
-        "at the time main() assembles the router",
+        "the configuration FILE reader is outside the model; portEnv (environment -> Username, Password, Cors, Mode) is model/AuthEnv.v, tied by "
+        "running a verbatim copy of boolEnv / portCHEnv / portEnv cut out of main.go (go build -overlay); that main calls portEnv before it "
+        "assembles the router is read from the source by the translator only as far as the conditions go",
         "C20: handlers are instrumented by the harness (route.Handler(wrapper)) to observe 'the handler ran'; the real handlers are invoked "
         "only in the five 'exec' controls",
     ]
@@ -578,3 +692,4 @@ def run_locked(ck):
     samp = [c for c in cases if c["class"] in ("trailing-garbage", "right", "wrong-pass") and c["rclass"] == "route"][:3]
     ck.add_samples([{"cfg": c["cfg"], "request": c["req"], "authorization": unhex(c["req"]["auth"]).decode("latin1"), "observed": c["obs"]} for c in samp])
     ck.add_samples([{"exec": c["req"]["path"], "class": c["class"], "observed": c["obs"]} for c in execs if c["class"] == "right"][:2])
+    run_env(ck)
